@@ -314,6 +314,11 @@ class Executor(object):
                 if st is None:
                     raise OutOfSubset('empty container needs a typed destination (declare local_types / field type)')
                 return self.alloc_empty(st, pt)
+        if pt.kind == 'opt' and pt.args[0].kind == 'mtag':
+            if v.pt.kind == 'none':
+                return SV(pt, IntC(0))
+            inner = self.coerce(v, pt.args[0], st)
+            return SV(pt, inner.t)
         if pt.kind == 'mtag':
             if v.pt.kind == 'method':
                 from .calls import method_tag
@@ -367,6 +372,7 @@ class Executor(object):
         self.widths = []
         self.path_no = 0
         self.paths_done = 0
+        self._cut_owner = {}
         node = finfo.node
         self._number_loops(node)
         nloops = len(self.loop_ord)
@@ -376,6 +382,8 @@ class Executor(object):
         while True:
             self.pos = 0
             self.path_no += 1
+            global _uid
+            # _uid = itertools.count()        # fresh names only need to be unique within one path (deterministic replays)
             if self.path_no > self.max_paths:
                 raise OutOfSubset('more than %d paths in %s' % (self.max_paths, finfo.qualname))
             try:
@@ -521,7 +529,10 @@ class Executor(object):
             if result.pt.kind == 'none' and contract.ret.kind not in ('opt', 'cell'):
                 self.oblige(st, 'returns.value', FALSE, self.func.node, kind='post', note='path returns None but contract promises %r' % (contract.ret,))
                 return
-            result = self.coerce(result, contract.ret)
+            if result.pt.kind == 'cell' and contract.ret.kind in ('str', 'int', 'list'):
+                from .calls import downcast_cell
+                result = downcast_cell(self, st, result, contract.ret, self.func.node)
+            result = self.coerce(result, contract.ret, st)
         # in postconditions parameter names denote the values passed in (parameters are not l-values of the spec)
         for pn, _ in list(contract.params) + list(contract.free):
             st.locals[pn] = entry.locals[pn]
@@ -534,6 +545,14 @@ class Executor(object):
 
             self.oblige(st, cl.label, t, cl, kind='hint', note='proof hint at exit (proved, then assumed)')
             self.assume(st, t)
+        for call in getattr(contract, 'uses_exit', ()):
+            from . import lemmas
+            ln = call.func.id
+            if ln not in self.reg.lemmas:
+                raise ContractMismatch('unknown lemma %s' % ln)
+            args = [self.cvalue(a, st, entry, result) for a in call.args]
+            st.pc.append(lemmas.instance_at(self, self.reg.lemmas[ln], args))
+            self.lemmas_used.add(ln)
         for cl in contract.ensures:
             self.oblige(st, cl.label, self.ceval(cl.expr, st, entry, result), cl, kind='post')
         self._check_frame(st, entry, contract, result)
@@ -703,8 +722,45 @@ class Executor(object):
 
     # ------------------------------------------------------------ statements
     def exec_block(self, stmts, st):
+        top = (self.func is not None and stmts is self.func.node.body and self.inline_depth == 0 and self.contract is not None and getattr(self.contract, 'cuts', None))
         for s in stmts:
+            if top:
+                self._maybe_cut(s, st)
             self.exec_stmt(s, st)
+
+    def _maybe_cut(self, s, st):
+        """block contract at a top-level statement of the verified function: the cut invariant is an obligation of every
+        incoming path; the code after it is verified once, from a state about which only the invariant (and the entry
+        facts) is known.  Incoming paths other than the first end here -- the continuation does not depend on them."""
+        src = ast.unparse(s)
+        for pat, clauses in self.contract.cuts.items():
+            if not src.startswith(pat):
+                continue
+            for cl in clauses:
+                self.oblige(st, 'cut.%s.established' % cl.label, self.ceval(cl.expr, st, self.entry, None), cl, kind='cut')
+            owner = self._cut_owner.get(pat)
+            here = tuple(self.script[:self.pos])
+            if owner is None:
+                self._cut_owner[pat] = here
+            elif owner != here:
+                raise PathEnd()
+            from . import calls
+            items = self._modset(self.contract, st, self.entry, None)
+            calls.havoc_for_call(self, st, st, items)
+            params = set(pn for pn, _ in list(self.contract.params) + list(self.contract.free))
+            for name, v in list(st.locals.items()):
+                if name in params or name.startswith('__') or v.t is None:
+                    continue
+                pt = self.contract.local_types.get(name, v.pt)
+                try:
+                    nv = SV(pt, fresh('cut_' + name, sort_of(pt)))
+                except TypeError:
+                    continue
+                self.assume_wf(st, nv)
+                st.locals[name] = nv
+            for cl in clauses:
+                self.assume(st, self.ceval(cl.expr, st, self.entry, None))
+            return
 
     def exec_stmt(self, s, st):
         m = getattr(self, 'st_' + type(s).__name__, None)
@@ -864,9 +920,24 @@ class Executor(object):
     def st_If(self, s, st):
         c = self.cond(s.test, st)
         if self.branch(st, c):
+            self._narrow(s.test, True, st)
             self.exec_block(s.body, st)
         else:
+            self._narrow(s.test, False, st)
             self.exec_block(s.orelse, st)
+
+    def _narrow(self, test, outcome, st):
+        """flow typing: after `x is None` / `x is not None` on a local of optional type was decided, the local is known
+        to hold a value on the not-None side (its static type loses the Opt)"""
+        if not (isinstance(test, ast.Compare) and len(test.ops) == 1 and isinstance(test.left, ast.Name)
+                and isinstance(test.comparators[0], ast.Constant) and test.comparators[0].value is None):
+            return
+        is_none_side = outcome if isinstance(test.ops[0], ast.Is) else (not outcome if isinstance(test.ops[0], ast.IsNot) else None)
+        if is_none_side is None or is_none_side:
+            return
+        v = st.locals.get(test.left.id)
+        if v is not None and v.pt.kind == 'opt':
+            st.locals[test.left.id] = self.unwrap_opt(st, v, test)
 
     def branch(self, st, c, raising=None, node=None):
         """fork on a Bool term; returns True/False and records it in the path condition.
@@ -883,6 +954,16 @@ class Executor(object):
                         note='%s would be raised here and nothing handles it' % raising)
             st.pc.append(c)
             return True
+        # infeasible sides are not explored: a side is dropped only when the quantifier-free part of the path condition,
+        # with spec functions uninterpreted, refutes it (z3, deterministic resource limit) -- a weaker premise, so sound
+        from . import prune
+        if prune.ENABLED and self.contract is not None and self.contract.options.get('prune'):
+            if prune.refuted(st.pc, c):
+                st.pc.append(Not(c))
+                return False
+            if prune.refuted(st.pc, Not(c)):
+                st.pc.append(c)
+                return True
         k = self.decide(2)
         if k == 0:
             st.pc.append(c)
@@ -1439,6 +1520,17 @@ class Executor(object):
             return v
         g = self.program.lookup_global(self.cur_module, n.id)
         if g is not None:
+            if g.pt.kind == 'globalexpr':
+                module, gname, node = g.py
+                is_special = isinstance(node, ast.Call) and isinstance(node.func, (ast.Name, ast.Attribute)) and \
+                    (getattr(node.func, 'id', None) == 'namedtuple' or getattr(node.func, 'attr', None) == 'compile')
+                if not is_special and isinstance(node, (ast.IfExp, ast.Name, ast.BoolOp, ast.Compare)):
+                    saved = self.cur_module
+                    self.cur_module = module
+                    try:
+                        return self.ev(node, st)
+                    finally:
+                        self.cur_module = saved
             return g
         b = self.builtin_name(n.id)
         if b is not None:
@@ -1517,9 +1609,13 @@ class Executor(object):
 
     def ex_Dict(self, n, st):
         if n.keys:
-            if all(isinstance(k, ast.Constant) for k in n.keys):
-                return SV(PT('pydict'), py=dict((k.value, self.ev(v, st)) for k, v in zip(n.keys, n.values)))
-            raise OutOfSubset('non-empty dict display at line %d' % n.lineno)
+            keys = []
+            for k in n.keys:
+                kv = self.ev(k, st) if k is not None else None
+                if kv is None or kv.t is None or kv.t.op != 'const':
+                    raise OutOfSubset('dict display with a non-constant key at line %d' % n.lineno)
+                keys.append(kv.t.val)
+            return SV(PT('pydict'), py=dict((k, self.ev(v, st)) for k, v in zip(keys, n.values)))
         return SV(PT('emptydict'), py=None)
 
     def ex_IfExp(self, n, st):
@@ -1614,6 +1710,14 @@ class Executor(object):
                 return SV(a.pt, Concat(a.t, self.as_seq(st, b, a.pt.args[0])))
             if ka in ('pytuple', 'emptylist') and kb == 'seq':
                 return SV(b.pt, Concat(self.as_seq(st, a, b.pt.args[0]), b.t))
+            if (ka == 'str' and kb == 'cell') or (ka == 'cell' and kb == 'str'):
+                # str + cell: concatenation when the cell holds text, TypeError otherwise
+                c = b.t if kb == 'cell' else a.t
+                if not self.branch(st, ptypes.cell_is_str(c), raising='TypeError', node=node):
+                    raise PyExc(ExcV('TypeError'))
+                sa = a.t if ka == 'str' else ptypes.cell_sval(a.t)
+                sb = b.t if kb == 'str' else ptypes.cell_sval(b.t)
+                return SV(TStr, Concat(sa, sb))
             if ka == 'cell' or kb == 'cell':
                 ca, cb = self.coerce(a, TCell).t, self.coerce(b, TCell).t
                 self.num_guard(st, ca, cb, node)
@@ -1649,7 +1753,15 @@ class Executor(object):
         if isinstance(op, ast.FloorDiv) and ka == 'int' and kb == 'int':
             return SV(TInt, smt.Div(a.t, b.t))
         if isinstance(op, ast.Mod) and ka == 'int' and kb == 'int':
-            return SV(TInt, smt.Mod(a.t, b.t))
+            if b.t.op == 'const' and b.t.val > 0:
+                return SV(TInt, smt.Mod(a.t, b.t))
+            # symbolic divisor: ZeroDivisionError on 0; for a positive divisor only the range of the result is kept
+            # (a weaker, linear fact: the solvers do not cope with mod by a variable); negative divisors: no fact at all
+            if not self.branch(st, Not(Eq(b.t, IntC(0))), raising='ZeroDivisionError', node=node):
+                raise PyExc(ExcV('ZeroDivisionError'))
+            r = fresh('mod', INT)
+            st.pc.append(Implies(Gt(b.t, IntC(0)), And(Ge(r, IntC(0)), Lt(r, b.t))))
+            return SV(TInt, r)
         if isinstance(op, ast.Pow):
             if isinstance(node, ast.BinOp) and isinstance(node.right, ast.Constant) and node.right.value == 2:
                 return self.binop(ast.Mult(), a, a, st, node)
@@ -1827,6 +1939,13 @@ class Executor(object):
             return self.set_has(st, cont, x)
         if k == 'emptylist':
             return FALSE
+        if k == 'recdict':
+            if x.t is None or x.t.op != 'const':
+                raise OutOfSubset('`in` on a record dict with a non-constant key at line %d' % getattr(node, 'lineno', 0))
+            f = ptypes.recdict_field(cont.pt, cont.t, x.t.val)
+            if f is None:
+                raise OutOfSubset('key %r is not declared for this record dict (line %d)' % (x.t.val, getattr(node, 'lineno', 0)))
+            return f[0]
         raise OutOfSubset('`in` on %r at line %d' % (cont.pt, getattr(node, 'lineno', 0)))
 
     # optional ----------------------------------------------------------
@@ -1845,9 +1964,15 @@ class Executor(object):
     def ex_Attribute(self, n, st):
         base = self.ev(n.value, st)
         k = base.pt.kind
+        if k == 'module' and base.py == 'sys' and n.attr in ('stdout', 'stderr', 'stdin'):
+            v = SV(TObj('io.OutStream' if n.attr != 'stdin' else 'io.TextStream'), Var('G!sys.' + n.attr, INT))
+            self.assume_wf(st, v)
+            return v
         if k == 'module':
             g = self.program.lookup_module_attr(base.py, n.attr)
             if g is None:
+                if '%s.%s' % (base.py, n.attr) in self.reg.classes:
+                    return SV(PT('class'), py='%s.%s' % (base.py, n.attr))      # a class of a dependency declared in the contracts
                 return SV(PT('func'), py=('modfunc', base.py, n.attr))
             return g
         if k == 'opt' and base.pt.args[0].kind == 'obj':
@@ -1900,9 +2025,15 @@ class Executor(object):
         idx = self.ev(n.slice, st)
         return self.subscript_load(st, base, idx, n)
 
-    def norm_index(self, i, ln):
+    def norm_index(self, i, ln, st=None):
         if i.op == 'const':
             return i if i.val >= 0 else Add(ln, i)
+        if st is not None:
+            # a syntactic `i >= 0` fact on the path (loop counters) makes the wrap-around case dead
+            nonneg = Ge(i, IntC(0))
+            for f in reversed(st.pc[-400:]):
+                if f is nonneg or f == nonneg:
+                    return i
         return Ite(Lt(i, IntC(0)), Add(i, ln), i)
 
     def subscript_load(self, st, base, idx, node):
@@ -1917,13 +2048,34 @@ class Executor(object):
             if idx.pt.kind != 'int':
                 raise OutOfSubset('index type %r at line %d' % (idx.pt, node.lineno))
             ln = Len(seq)
-            j = self.norm_index(idx.t, ln)
+            j = self.norm_index(idx.t, ln, st)
             ok = And(Ge(j, IntC(0)), Lt(j, ln))
             if not self.branch(st, ok, raising='IndexError', node=node):
                 raise PyExc(ExcV('IndexError'))
             if k == 'str':
                 return SV(TStr, Nth(seq, j))
             return self.wf(st, SV(base.pt.args[0], Nth(seq, j)))
+        if k == 'pydict':
+            # a literal {const: value, ...} indexed by a symbolic key: one path per entry, KeyError otherwise
+            if idx.t is not None and idx.t.op == 'const':
+                if idx.t.val in base.py:
+                    return base.py[idx.t.val]
+                raise PyExc(ExcV('KeyError'))
+            for kc, v in base.py.items():
+                kt = StrC(kc) if isinstance(kc, str) else IntC(kc)
+                if self.branch(st, Eq(idx.t, kt)):
+                    return v
+            if not self.branch(st, FALSE, raising='KeyError', node=node):
+                raise PyExc(ExcV('KeyError'))
+        if k == 'recdict':
+            if idx.t is None or idx.t.op != 'const':
+                raise OutOfSubset('record dict indexed by a non-constant key at line %d' % node.lineno)
+            f = ptypes.recdict_field(base.pt, base.t, idx.t.val)
+            if f is None:
+                raise OutOfSubset('key %r is not declared for this record dict (line %d)' % (idx.t.val, node.lineno))
+            if not self.branch(st, f[0], raising='KeyError', node=node):
+                raise PyExc(ExcV('KeyError'))
+            return f[1]
         if k == 'pytuple':
             if idx.t is not None and idx.t.op == 'const':
                 return base.py[idx.t.val]
@@ -1968,6 +2120,9 @@ class Executor(object):
             base = self.unwrap_opt(st, base, node)
             k = base.pt.kind
         if k not in ('list', 'seq', 'str'):
+            if base.pt.kind == 'globalexpr' and sl.lower is None and sl.upper is None:
+                # X[:] of a module-level container: a private copy; only handed on as an opaque value
+                return SV(PT('opaque'), py=('copy-of-global', base.py[1]))
             raise OutOfSubset('slice of %r' % (base.pt,))
         seq = self.list_content(st, base) if k == 'list' else base.t
         ln = Len(seq)
@@ -1993,7 +2148,7 @@ class Executor(object):
         if k == 'list':
             seq = self.list_content(st, base)
             ln = Len(seq)
-            j = self.norm_index(self._int(idx), ln)
+            j = self.norm_index(self._int(idx), ln, st)
             ok = And(Ge(j, IntC(0)), Lt(j, ln))
             if not self.branch(st, ok, raising='IndexError', node=node):
                 raise PyExc(ExcV('IndexError'))
@@ -2046,7 +2201,19 @@ class Executor(object):
         present = Not(ptypes.opt_is_none(opt, Select(inner, key.t)))
         st.heap[mname] = Store(m, d.t, Store(inner, key.t, ptypes.opt_some(opt, val.t)))
         ko = Select(korder, d.t)
-        st.heap[kname] = Store(korder, d.t, Ite(present, ko, Concat(ko, Unit(key.t))))
+        known = None
+        npres = Not(present)
+        for f in reversed(st.pc[-50:]):
+            if f == present:
+                known = True
+                break
+            if f == npres:
+                known = False
+                break
+        if known is True:
+            return
+        newko = Concat(ko, Unit(key.t)) if known is False else Ite(present, ko, Concat(ko, Unit(key.t)))
+        st.heap[kname] = Store(korder, d.t, newko)
 
     def dict_get_item(self, st, d, key, node):
         present, v = self.dict_lookup(st, d, key)
@@ -2171,6 +2338,12 @@ def seq_elem_sv(ex, st, itv, seq, i):
         st.pc.append(present)
         return SV(PT('pytuple'), py=(key, val))
     pt = itv.pt.args[0].args[0] if k == 'opt' else itv.pt.args[0]
+    if k == 'seq' and seq.op == "var" and seq.val in RANGE_SEQS:
+        # range(n)[i] == i for 0 <= i < n (the loop body runs under that guard)
+        return SV(TInt, i)
     e = SV(pt, Nth(seq, i))
     ex.assume_wf(st, e)
     return e
+
+
+RANGE_SEQS = set()
